@@ -119,10 +119,10 @@ def build_tokens(m, spec):
             out.append(A.Obj('%s%d' % (w, i), {'catcode': None, 'nodeName': '#text'}, cls=c))
         elif w in ('not', 'and', 'or', 'NOT', 'AND', 'OR'):
             c = m.cls(MOD, w if w.isupper() else '_' + w)
-            out.append(A.Obj('%s%d' % (w, i), {'catcode': None, 'nodeName': w, '__eqkey': ('macro', w)}, cls=c))
+            out.append(A.Obj('%s%d' % (w, i), {'catcode': None, 'nodeName': w, '__eqkey': ('macro', w), '_dom_childNodes': []}, cls=c))
         elif w in ('(', ')'):
             # (nodes of the document tree compare by value: two \( are equal, though not identical)
-            out.append(A.Obj('%s%d' % (w, i), {'catcode': None, 'nodeName': w, '__eqkey': ('macro', w)}, cls=Command))
+            out.append(A.Obj('%s%d' % (w, i), {'catcode': None, 'nodeName': w, '__eqkey': ('macro', w), '_dom_childNodes': []}, cls=Command))
         elif w == 'SP':
             out.append(A.TextObj(' ', label='SP%d' % i, catcode=10, nodeName='#text', __eqkey=('tok', 10, ' ')))
         elif w in ('<', '>', '=') or w.lstrip('-').isdigit():
